@@ -32,11 +32,15 @@ def frameFallThrough : Bool := true
 def answerOnlyRequests : Bool := true
 
 /-- The capabilities-exchange gate also drops everything received on a
-    CLOSING / CLOSED connection (false on the pinned tree). -/
-def gateClosing : Bool := false
+    CONNECTING / CLOSING / CLOSED connection (true since the `fix:` commit). -/
+def gateClosing : Bool := true
 
 /-- A synchronous connect failure closes the socket and stops the connection's
     workers (false on the pinned tree, which only removed the table entries). -/
 def connectFailCloses : Bool := false
+
+/-- The CER/CEA timeout runs from the establishment of the transport (true since
+    the `fix:` commit; the pinned tree measured from the last read). -/
+def ceTimeoutFromEstablished : Bool := true
 
 end DV.Config
